@@ -34,7 +34,7 @@ ASSUMPTIONS = ["host canonicalisation is label-local, so words of <= 3 letters o
 
 SUB = list("!$&'()*+,;=")
 ALPHA = ["a", "A", "0", "-", ".", "_", "~", "%41", "%2f", "é", "É", "ß", "İ", "☃", "xn--", "１", "xn--9ca", "XN--9CA",
-         "\uff41", "e\u0301", "\xad"] + SUB   # UTS-46 *maps* these lower-case spellings: fullwidth a -> a, decomposed accent -> é, soft hyphen -> nothing
+         "\uff41", "e\u0301", "\xad", "\u03a3", "\u03c3", "\u03c2"] + SUB   # UTS-46 *maps* these lower-case spellings: fullwidth a -> a, decomposed accent -> é, soft hyphen -> nothing; the three sigmas: str.lower() and UTS-46 disagree on a word-final capital sigma
 ROUTES = ["ctor", "build_host", "build_authority", "with_host", "with_host_same", "build_host~enum", "with_host~enum"]
 
 
